@@ -1,7 +1,7 @@
 """Which contract libraries serve which property."""
 import importlib
 
-LIBS = ["bitset", "scalars", "codec", "cursor"]
+LIBS = ["bitset", "scalars", "codec", "cursor", "gen_access"]
 
 
 def contracts_for(prop, tier):
